@@ -2,7 +2,9 @@
 import histcheck, histgen
 from histlib import ESZ, UNLIMITED, prod
 
-TRUSTED = ["C13: tools/histlib.py resize_arr oracle and the hist harness glue"]
+TRUSTED = ["C13: tools/histlib.py resize_arr oracle and the hist harness glue",
+           "C13-unit (tools/props/c13unit.py): the header rewrite of Resize is tied byte for byte to Model/Resize.v (theorems Props/C13Header.v); "
+           "the Python object-header / dataspace parser there is the independent oracle"]
 
 
 def one_history(rng, shrink_grow=False, spec_safe=False):
@@ -66,7 +68,7 @@ def cases_for(rng, tier):
 
 def run(ctx):
     return histcheck.run(ctx, cases_for(ctx.rng, ctx.tier), "C13", tags={"data", "must-fail-accepted", "must-succeed-refused"},
-                         known=KNOWN, unit_modules=["c01unit"],
+                         known=KNOWN, unit_modules=["c01unit", "c13unit"],
                          rule_extra="C13 cases: grow/shrink/rewrite sequences (1..12 resizes) over ranks 1-3, chunk shapes, fixed and unlimited "
                                     "maxima, requests beyond the maximum; the resize chains generated are exactly those inside chain_covers (theorem "
                                     "C13_read_after_resizes): growing a dimension again after it was shrunk BELOW the extent of the last full write, "
